@@ -266,7 +266,7 @@ pub fn check_h(l: &mut Local, m: &Mat, rng: &mut Rng) {
 
 pub fn run(run: &mut Run) {
     run.rule = "r x n binary matrices, 1<=r<=n (mostly <= 10x24, every 64th up to 60x120) from 10 families (random, sparse, dependent row, zero row, pivots at the far right, free columns exhausted before the last pivots, identity left/right, duplicate+zero columns, staircase code, square); oracle = own bit-packed rank, column multiset comparison, tail invertibility; non-trivial = full-rank input with a free column left of a pivot; distinct by matrix digest".into();
-    let n = if cfg!(miri) { 40 } else { run.tier.n(40_000, 1_500_000) };
+    let n = if cfg!(miri) { 40 } else { run.tier.n(1_500_000, 50_000_000) };
     run.sub("matrices", n, |l, idx, rng| {
         let m = gen_h(rng, idx);
         check_h(l, &m, rng);
